@@ -347,15 +347,17 @@ func TestVerifC20(t *testing.T) {
 	}
 	outcomes := map[string]bool{}
 	var harnessErrs []string
-	nontrivial := 0
+	rejected := map[string]bool{}
 	results := pool.Map(jobs, nil)
 	for i, r := range results {
 		job := jobsT[i]
-		if r.Crashed || r.TimedOut {
+		if r.TimedOut {
+			// a wall-clock watchdog is never a verdict (a wedge is detected by the lock shim as a state)
+			harnessErrs = append(harnessErrs, fmt.Sprintf("worker watchdog expired on %+v", job))
+			continue
+		}
+		if r.Crashed {
 			kind := "process-crash"
-			if r.TimedOut {
-				kind = "execution-hang"
-			}
 			tail := r.Stderr
 			if len(tail) > 1500 {
 				tail = tail[len(tail)-1500:]
@@ -376,16 +378,16 @@ func TestVerifC20(t *testing.T) {
 			res.Violate(v.Signature+"/"+vfC20Class(job), fmt.Sprintf("mode %s: %s", job.Mode, v.Detail), job)
 		}
 		outcomes[job.Mode+":"+out.Outcome] = true
-		if strings.Contains(out.Outcome, "err=true") || strings.Contains(out.Outcome, "ended=false") {
-			nontrivial++
+		if strings.Contains(out.Outcome, "err=true") {
+			rejected[fmt.Sprintf("%s:%+v", job.Mode, job.Opens)] = true
 		}
 	}
 	res.Set("states", int64(len(jobs)))
 	res.Set("transitions", int64(len(jobs)))
 	res.Set("traces_validated_against_impl", int64(len(jobs)))
 	res.Set("evaluations", int64(len(jobs)))
-	res.Set("distinct_nontrivial", int64(nontrivial))
-	res.Set("rule", "histories = sequences of stream opens over the metadata alphabet (each key over its alphabet with the others well-formed; pairs and, in thorough, triples over the boundary subset), each kept open or closed, in default/LCM/routing mode, followed by a well-formed open; non-trivial = the open was rejected or stayed served")
+	res.Set("distinct_nontrivial", int64(len(rejected)))
+	res.Set("rule", "histories = sequences of stream opens over the metadata alphabet (each key over its alphabet with the others well-formed; pairs and, in thorough, triples over the boundary subset), each kept open or closed, in default/LCM/routing mode, followed by a well-formed open; non-trivial = distinct histories in which at least one open was rejected with an error")
 	res.Set("distinct_outcomes", int64(len(outcomes)))
 	res.Set("exhaustive", len(harnessErrs) == 0)
 	res.Set("harness_errors", harnessErrs)
